@@ -453,4 +453,36 @@ def childState (s : St) (st : Nat) : St × Out :=
     ({ s with chState := st, childPicker := true, childConn := st, recentNoop := c.noop, upNoop := some c.noop },
      { ups := [(st, c.noop)] })
 
+/-! ## histories -/
+
+/-- One event of a history.  `advance` lets time pass without a timer firing; `fire` is one run of
+    intervalTimerAlgorithm (by the timer or called directly) with an arbitrary map iteration
+    order for each algorithm and arbitrary random draws. -/
+inductive Op
+  | update (c : Cfg) (ids : List Nat)
+  | calls (serial ns nf : Nat)
+  | sc (serial st : Nat)
+  | health (serial st : Nat)
+  | newsc (id : Nat)
+  | rmsc (serial : Nat)
+  | childstate (st : Nat)
+  | quiet (b : Bool)
+  | advance (d : Nat)
+  | fire (orderSr orderFp draws : List Nat)
+deriving Repr
+
+def step (s : St) : Op → St
+  | .update c ids => (update s c ids).1
+  | .calls a b c => (calls s a b c).1
+  | .sc a b => (scUpdate s a b).1
+  | .health a b => (healthUpdate s a b).1
+  | .newsc a => (childNewSc s a).1
+  | .rmsc a => (childRmSc s a).1
+  | .childstate a => (childState s a).1
+  | .quiet b => { s with quiet := b }
+  | .advance d => { s with now := s.now + d }
+  | .fire a b c => (fire s a b c).1
+
+def run (ops : List Op) : St := ops.foldl step init
+
 end GrpcModel.Outlier
